@@ -138,7 +138,19 @@ def run_check(mod, pid, tier, seed, t0):
     if broken:
         ctx.escalated = True
         say("[D] %d broken obligation(s)/layer(s): running the failing-input search" % len(broken))
-    ores = mod.oracle(ctx, seeds)
+    try:
+        ores = mod.oracle(ctx, seeds)
+    except Infra:
+        raise
+    except Exception as e:
+        if not broken:
+            raise          # the harness itself failed on a tree whose obligations and correspondence are intact: exit 2
+        # obligations / correspondence are already broken and the implementation now returns something the sweep cannot even
+        # digest (wrong shapes, ...): the search found no *replayable* input, the verdict below is no-failing-input-found
+        tb = traceback.extract_tb(e.__traceback__)
+        say("[D] failing-input search aborted on the implementation's output: %s: %s (at %s)" % (
+            type(e).__name__, str(e)[:200], "; ".join("%s:%d" % (os.path.basename(f.filename), f.lineno) for f in tb[-3:])))
+        ores = core.OracleResult()
     say("[D] oracle: %d evaluations, %d distinct non-trivial, %d failing %s" % (
         ores.evaluations, len(ores.nontrivial), len(ores.failures),
         json.dumps(ores.stats, sort_keys=True)[:400] if ores.stats else ''))
